@@ -471,36 +471,121 @@ def literals_idiom(model, cg, fi, var):
 
 
 def dyn_rule(model, rep, cg, reach):
+    """Names handed to getattr/setattr/delattr/hasattr are built from literals, node class names and node field names only -- never from
+    the content of the input. The derivation follows locals, literal loops and, for parameters, every call site of the function."""
+    callers = {}
+
+    def call_sites(fi):
+        if not callers:
+            for q2 in sorted(reach):
+                g = model.funcs[q2]
+                for (n_, t, _rc) in cg.callees(g):
+                    if isinstance(n_, ast.Call):
+                        callers.setdefault(t.qual, []).append((g, n_))
+            callers.setdefault('', [])
+        return callers.get(fi.qual, []) + callers.get(getattr(fi, 'alias_of', None) or '\0', [])
+
+    def arg_for(fi, call, pname):
+        ps = fi.positional
+        for k in call.keywords:
+            if k.arg == pname:
+                return k.value
+        if pname in ps and ps.index(pname) < len(call.args) and not any(isinstance(a, ast.Starred) for a in call.args):
+            return call.args[ps.index(pname)]
+        return fi.defaults().get(pname)
+
+    def derives(fi, e, depth, seen):
+        """(ok, reason)"""
+        if depth > 6:
+            return False, 'derivation too deep at %s' % src(e)
+        if isinstance(e, ast.Constant):
+            return (True, '') if isinstance(e.value, str) else (False, 'non-string constant %s' % src(e))
+        t = src(e)
+        if 'iter_fields' in t or '_fields' in t:
+            return True, ''
+        if isinstance(e, ast.Attribute) and e.attr == '__name__':
+            v = e.value
+            if (isinstance(v, ast.Attribute) and v.attr == '__class__') or (isinstance(v, ast.Call) and src(v.func) == 'type'):
+                return True, ''
+            return False, '%s is not a class name' % t
+        if isinstance(e, ast.BinOp) and isinstance(e.op, (ast.Add, ast.Mod)):
+            parts = [e.left] + (list(e.right.elts) if isinstance(e.op, ast.Mod) and isinstance(e.right, ast.Tuple) else [e.right])
+            for p_ in parts:
+                ok, why = derives(fi, p_, depth + 1, seen)
+                if not ok:
+                    return ok, why
+            return True, ''
+        if isinstance(e, ast.JoinedStr):
+            for p_ in e.values:
+                ok, why = derives(fi, p_.value if isinstance(p_, ast.FormattedValue) else p_, depth + 1, seen)
+                if not ok:
+                    return ok, why
+            return True, ''
+        if isinstance(e, ast.IfExp):
+            for p_ in (e.body, e.orelse):
+                ok, why = derives(fi, p_, depth + 1, seen)
+                if not ok:
+                    return ok, why
+            return True, ''
+        if isinstance(e, ast.Name):
+            key = (fi.qual, e.id)
+            if key in seen:
+                return True, ''
+            seen = seen | {key}
+            ds = cg.defs(fi).get(e.id)
+            if not ds:
+                v = model.module_assigns.get(fi.module, {}).get(e.id)
+                if v is not None:
+                    return derives(fi, v, depth + 1, seen)
+                return False, '%s has no visible definition' % e.id
+            for d in ds:
+                if isinstance(d, ast.AST):
+                    ok, why = derives(fi, d, depth + 1, seen)
+                elif isinstance(d, tuple) and d[0] == '<iter>':
+                    it = d[1]
+                    if isinstance(it, (ast.Tuple, ast.List, ast.Set)):
+                        ok, why = True, ''
+                        for el in it.elts:
+                            ok, why = derives(fi, el, depth + 1, seen)
+                            if not ok:
+                                break
+                    else:
+                        ok, why = ('iter_fields' in src(it) or '_fields' in src(it)), 'loop over %s' % src(it)
+                elif d == '<param>':
+                    sites = call_sites(fi)
+                    if not sites:
+                        ok, why = False, 'parameter %s of %s has no resolved call site' % (e.id, fi.qual)
+                    else:
+                        ok, why = True, ''
+                        for (g, c_) in sites:
+                            a = arg_for(fi, c_, e.id)
+                            if a is None:
+                                ok, why = False, 'argument for %s not evident at %s' % (e.id, g.loc(c_))
+                            else:
+                                ok, why = derives(g, a, depth + 1, seen)
+                                if not ok:
+                                    why += ' (passed at %s)' % g.loc(c_)
+                            if not ok:
+                                break
+                else:
+                    ok, why = False, '%s is bound by %s' % (e.id, d)
+                if not ok:
+                    return ok, why
+            return True, ''
+        return False, 'attribute name %s is computed from something other than literals, class names and field names' % t
+
     n = 0
     for q in sorted(reach):
         fi = model.funcs[q]
-        defs = cg.defs(fi)
         for c in calls(fi.node):
             if isinstance(c.func, ast.Name) and c.func.id in ('getattr', 'setattr', 'delattr', 'hasattr') and len(c.args) >= 2:
                 name_e = c.args[1]
                 if isinstance(name_e, ast.Constant):
                     continue
                 n += 1
-                ok = False
-                why = 'attribute name %s is computed' % src(name_e)
-                cands = [name_e]
-                if isinstance(name_e, ast.Name):
-                    ds = defs.get(name_e.id, [])
-                    cands = [d if isinstance(d, ast.AST) else (d[1] if isinstance(d, tuple) else None) for d in ds]
-                good = 0
-                for d in cands:
-                    if d is None:
-                        continue
-                    t = src(d)
-                    if isinstance(d, ast.Constant) and isinstance(d.value, str):
-                        good += 1
-                    elif isinstance(d, ast.BinOp) and isinstance(d.left, ast.Constant) and '__class__.__name__' in src(d.right):
-                        good += 1
-                    elif 'iter_fields' in t or '_fields' in t:
-                        good += 1
-                ok = good == len(cands) and good > 0
-                rep.check(ok, 'C12.DYN', fi.loc(c), src(c)[:80], 'name derives from node class names / field names',
-                          'dynamic attribute access with a name that does not derive from node class or field names: ' + why, key='C12.DYN|%s|%s' % (q, src(c)[:60]))
+                ok, why = derives(fi, name_e, 0, frozenset())
+                rep.check(ok, 'C12.DYN', fi.loc(c), src(c)[:80], 'name derives from literals, node class names and field names',
+                          'dynamic attribute access with a name that does not derive from literals, node class or field names: ' + why, key='C12.DYN|%s|%s' % (q, src(c)[:60]))
     rep.floor('C12.DYN', 5, n)
 
 
